@@ -2,7 +2,7 @@
    Model: Model/Labels.v (labels_cycles) over binary64 features and thresholds. *)
 From Coq Require Import List Arith Bool ZArith Floats.PrimFloat.
 Import ListNotations.
-From ByC Require Import Base.Result Base.FloatFacts Model.Runs Model.Labels Proofs.Labels Proofs.LabelsOrder.
+From ByC Require Import Base.Result Base.FloatFacts Model.Runs Model.Labels Model.Cycles Model.Features Proofs.Labels Proofs.LabelsOrder Proofs.FeaturesSpec.
 
 (* a cycle is labelled exactly when it lies in a stretch of >= n consecutive qualifying
    cycles that avoids the first and the last cycle of the table *)
@@ -54,3 +54,18 @@ Theorem C06_raising_thresholds_or_n_only_removes_labels : forall t t' n n' rows 
   forall i, nth i lab' false = true -> nth i lab false = true.
 Proof. exact labels_cycles_mono. Qed.
 Print Assumptions C06_raising_thresholds_or_n_only_removes_labels.
+
+(* in the table returned by compute_features(burst_method='cycles') the is_burst column is the rule
+   applied to the table's OWN four feature columns with the thresholds the caller passed *)
+Theorem C06_pipeline_labels_are_the_rule_on_the_table_columns : forall c raw k b t n out,
+  compute_features c raw k b (Cycles t n) = Ok out ->
+  labels_cycles t n (map feat_of_row out) = Ok (map r_is_burst out).
+Proof. exact compute_features_cycles_self. Qed.
+Print Assumptions C06_pipeline_labels_are_the_rule_on_the_table_columns.
+
+Theorem C06_pipeline_label_iff_on_columns : forall c raw k b t n out i,
+  compute_features c raw k b (Cycles t n) = Ok out ->
+  (r_is_burst (nth i out frow0) = true <->
+   interior_window (map (row_qualifies t) out) (Z.to_nat n) i).
+Proof. exact compute_features_cycles_label_iff. Qed.
+Print Assumptions C06_pipeline_label_iff_on_columns.
